@@ -531,3 +531,18 @@ Proof.
   intros Hy. rewrite update_returns_F_block' by exact Hy. apply y_start_F.
   rewrite firstn_length. change (T NumR) with R in *. lia.
 Qed.
+
+(* ====================== argument validation (C07: malformed calls are rejected) ====================== *)
+Theorem malformed_call_rejected bad (Fd : RL) (s : @snapshot NumR) t0 t1 :
+  (bad = 1 \/ bad = 2 \/ bad = 3 \/ bad = 4)%Z -> @checked_problem NumR bad Fd s t0 t1 = Err ValueError.
+Proof. intros [->|[->|[->| ->]]]; reflexivity. Qed.
+
+Theorem wellformed_call_builds_problem bad (Fd : RL) (s : @snapshot NumR) t0 t1 :
+  (bad <> 1 /\ bad <> 2 /\ bad <> 3 /\ bad <> 4)%Z ->
+  @checked_problem NumR bad Fd s t0 t1 = Ok (@lsoda_problem_of NumR Fd s t0 t1).
+Proof.
+  intros (H1 & H2 & H3 & H4). unfold checked_problem, malformed_call.
+  rewrite (proj2 (Z.eqb_neq _ _) H1), (proj2 (Z.eqb_neq _ _) H2), (proj2 (Z.eqb_neq _ _) H3), (proj2 (Z.eqb_neq _ _) H4).
+  reflexivity.
+Qed.
+
